@@ -45,6 +45,18 @@ def correspondence(ctx, model_available=True):
                 spec_failures.append({"what": "front end (mode %r) %s" % (mode, "did not terminate" if r[0] == "hang" else "raised " + r[1]),
                                       "text": t})
                 break
+    # programs that fill the 16-bit address space exactly (or miss by one), with the label after the last instruction
+    # in use: slow to parse, so one size in the quick tier (seed C07c)
+    for total in ([65536] if quick else [65535, 65536, 65537]):
+        t = "SET(R1, far)\nCALL(R12, far)\n" + "NOP()\n" * (total - 5) + "LABEL(far)\n"
+        mode = rng.choice(fc.MODES)
+        r = fc.front_end(t, mode, budget=60.0)
+        surv["runs"] += 1
+        surv["long_programs"] = surv.get("long_programs", 0) + 1
+        if r[0] != "ok":
+            spec_failures.append({"what": "front end (mode %r) %s on a program of exactly %d instructions whose end label is used"
+                                          % (mode, "did not terminate" if r[0] == "hang" else "raised " + r[1], total),
+                                  "text": "SET(R1, far) CALL(R12, far) NOP() x %d LABEL(far)" % (total - 5)})
     return {
         "cases": lres["cases"] + surv["runs"], "nontrivial": surv["with_errors"] + lres["errors"],
         "rule": "lexer: real token stream (type, value, line, column, warnings, final position) vs Model/Lexer.v on ASCII "
